@@ -87,14 +87,21 @@ type SpecFunc struct {
 	Rec     bool
 }
 
+type GhostVar struct {
+	Name    string
+	Type    ast.Expr
+	PkgPath string
+}
+
 type Contracts struct {
 	Funcs  map[string]*FuncContract // key: normalized qualified name
+	Ghosts map[string]*GhostVar     // ghost globals (specification-only state such as the clock)
 	Specs  map[string]*SpecFunc
 	Files  []string
 	Errors []string
 }
 
-var keywordRe = regexp.MustCompile(`^(spec|func|interface|requires|ensures|modifies|loop|before|after|on|forbid|inline|pure|stable|trusted|safety|noverify)\b`)
+var keywordRe = regexp.MustCompile(`^(ghost|spec|func|interface|requires|ensures|modifies|loop|before|after|on|forbid|inline|pure|stable|trusted|safety|noverify)\b`)
 var labelRe = regexp.MustCompile(`^([A-Za-z][A-Za-z0-9_-]*):\s+(.*)$`)
 
 // ppImplies rewrites "a ==> b" to implies(a, b) and "a <==> b" to iff(a, b).
@@ -332,6 +339,20 @@ func (c *Contracts) loadContractFile(path, pkgPath string) {
 		switch kw {
 		case "spec":
 			c.parseSpec(rest, path, pkgPath, pos)
+			cur = nil
+		case "ghost":
+			// ghost var NAME TYPE
+			f := strings.Fields(rest)
+			if len(f) != 3 || f[0] != "var" {
+				c.errf("%s: expected 'ghost var NAME TYPE'", pos)
+				continue
+			}
+			te, err := parser.ParseExpr(f[2])
+			if err != nil {
+				c.errf("%s: ghost type: %v", pos, err)
+				continue
+			}
+			c.Ghosts[f[1]] = &GhostVar{Name: f[1], Type: te, PkgPath: pkgPath}
 			cur = nil
 		case "func", "interface":
 			fields := strings.Fields(rest)
@@ -613,7 +634,7 @@ func qualify(name, pkgPath string) string {
 }
 
 func loadContracts(repo, specDir string, pkgDirs map[string]string) *Contracts {
-	c := &Contracts{Funcs: map[string]*FuncContract{}, Specs: map[string]*SpecFunc{}}
+	c := &Contracts{Funcs: map[string]*FuncContract{}, Specs: map[string]*SpecFunc{}, Ghosts: map[string]*GhostVar{}}
 	var paths []string
 	for p := range pkgDirs {
 		paths = append(paths, p)
